@@ -307,6 +307,10 @@ func IsNilConst(v ssa.Value) bool {
 //	global-> "@pkg.name"            const -> literal                   phi -> "phi[a|b]"
 func Desc(v ssa.Value) string { return descN(v, 6) }
 
+// DescDeep is Desc without practical depth truncation; used where two descriptors are compared
+// for identity (lock names, base objects).
+func DescDeep(v ssa.Value) string { return descN(v, 24) }
+
 func descN(v ssa.Value, depth int) string {
 	if v == nil {
 		return "<nil>"
